@@ -246,3 +246,65 @@ func ifsOn(fn *ssa.Function, v ssa.Value) []*ssa.If {
 	})
 	return out
 }
+
+// immutableOrigin reports whether an origin denotes a value that cannot
+// change during one activation of the function: a parameter, a constant, or
+// a field projected out of such a *struct value* (never through a pointer).
+func immutableOrigin(o sx.Origin) bool {
+	switch o.Kind {
+	case sx.KParam, sx.KConst:
+		return true
+	case sx.KField:
+		if len(o.Base) == 0 {
+			return false
+		}
+		for _, b := range o.Base {
+			if !immutableOrigin(b) {
+				return false
+			}
+			var t types.Type
+			switch b.Kind {
+			case sx.KParam:
+				t = b.V.Type()
+			case sx.KField:
+				if b.Field == nil {
+					return false
+				}
+				t = b.Field.Type()
+			default:
+				return false
+			}
+			if _, isStruct := t.Underlying().(*types.Struct); !isStruct {
+				return false
+			}
+		}
+		return true
+	}
+	return false
+}
+
+// exprKey is a canonical rendering of a pure SSA expression; two values with
+// the same key evaluate identically within one activation.
+func exprKey(v ssa.Value) string {
+	switch x := v.(type) {
+	case *ssa.Const:
+		return "k:" + x.String()
+	case *ssa.BinOp:
+		return "(" + exprKey(x.X) + x.Op.String() + exprKey(x.Y) + ")"
+	case *ssa.UnOp:
+		if x.Op == token.NOT || x.Op == token.SUB {
+			return x.Op.String() + exprKey(x.X)
+		}
+	}
+	os := sx.Origins(v)
+	if sx.All(os, immutableOrigin) {
+		return "o:" + sx.OriginsString(os)
+	}
+	return "v:" + v.Name()
+}
+
+// condClass is a sx.Query.CondClass implementation based on exprKey.
+func condClass(ifi *ssa.If) (string, bool) {
+	v, pos := condOf(ifi)
+	return strings.NewReplacer(";", ",", "=", "~").Replace(exprKey(v)), pos
+}
